@@ -1,6 +1,7 @@
 import Driver.Arith
 import Driver.Model
 import Driver.Proto
+import Driver.Lin
 /-! Line-protocol driver: one request per input line, one canonical answer per output line
 (protocol-trace lines `p …` answer only at `p done`). -/
 open Driver
@@ -16,6 +17,7 @@ def handle (st : DSt) (line : String) : DSt × Option String :=
   | "arith" :: rest => (st, some ((arithLine rest).getD "bad-op"))
   | "m" :: rest => let (m, r) := modelLine st.m rest; ({ st with m := m }, some r)
   | "p" :: rest => let (p, r) := protoLine st.p rest; ({ st with p := p }, r)
+  | "lin" :: rest => (st, some (linLine rest))
   | _ => (st, some "bad-op")
 
 partial def loop (h : IO.FS.Stream) (out : IO.FS.Stream) (st : DSt) : IO Unit := do
